@@ -246,12 +246,18 @@ def make_check():
             ref = state["ref"]
             op = info["op"]
             fails.extend(G.check_rejected(ex, info))
+            fails.extend(G.check_sort_failure(ex, info))
             if info.get("target") is not None and info["target"] is not root:
                 # a call on another sequence (the second tree the case keeps alive, or a member that is itself a
                 # sequence): the list at the root received NO operation — whatever the call did or rejected, with
                 # members of the root as arguments or not, the root still equals the reference (state clauses below)
                 before_pairs = list(ref.items)
                 op = None
+                if any(p is root for p in ex.parents(info["target"])):
+                    # ... unless the target is a sequence BELOW the root (a member that is itself a List, round m1): the
+                    # member's value is what that call made of it; the root's reference follows (the call itself is under
+                    # G.check_sort_failure / C08's clauses, the root under the state clauses below)
+                    ref.items = [_item(m) for m in root]
             if op is not None and "skip" not in (info["out"] if isinstance(info["out"], dict) else {}):
                 name = op["op"]
                 raised = info["raised"]
@@ -314,6 +320,15 @@ def make_check():
                         elif op.get("key") == "raise":
                             if len(items) >= 2:
                                 exp_exc = "KeyRaises"        # the key function fails on its second call: nothing moves
+                        elif op.get("key") in G.SORT_CMP_FAILS:
+                            # a key under which a COMPARISON may fail (round m1): the plain list receives the same call
+                            # with the same key on the adapted values — it ends sorted, or raises and is left in SOME
+                            # rearrangement of its items (CPython's documented behaviour)
+                            keyf = G.comparison_failing_key(op, lambda p: p[0], lambda p: p[1], lambda: items.append(None))
+                            try:
+                                items.sort(key=keyf, reverse=bool(op["rev"]))
+                            except Exception as e:
+                                exp_exc = "CmpFails:" + type(e).__name__
                         elif op.get("key") in ("len", "field"):
                             if any(p.extra is None or p.extra.get(op["key"]) is None for p in items):
                                 exp_exc = "KeyRaises"        # the key function raises on some member: so must sort()
@@ -442,6 +457,19 @@ def make_check():
                         ref.items = [_item(m) for m in root]
                     if raised is None:
                         fail("rejected-argument-raises", "an exception", "returned normally")
+                elif name == "sort" and op.get("key") in G.SORT_CMP_FAILS:
+                    # the list returned sorted <-> the sequence returned (then the ORDER must agree: members-equal-list
+                    # below); the list raised inside a comparison <-> the sequence raised the same exception, and both
+                    # are left in SOME rearrangement: compared as multisets, the reference then follows the sequence's
+                    # order and every later call / positional clause addresses it by position
+                    want = exp_exc.split(":", 1)[1] if exp_exc else None
+                    if (rname != want) if op.get("key") != "cmp-mutate" else ((rname is None) != (want is None)):
+                        fail("raises-like-list", want, rname)
+                    now_items = [_item(m) for m in root]
+                    if sorted(repr(G.vj(v)) for v, _ in now_items) != sorted(repr(G.vj(v)) for v, _ in items):
+                        fail("failed-sort-rearranges", G.vj([v for v, _ in before_pairs]), G.vj([v for v, _ in now_items]))
+                    if exp_exc is not None or raised is not None:
+                        ref.items = now_items
                 elif name == "sort" and op.get("key") is None:
                     # not demanded to succeed (elements define no ordering; sequence members compare as Python lists,
                     # so a key-less sort may go through): if it returns, the members are a rearrangement of what was there
@@ -635,12 +663,13 @@ def _op(s):
 
 
 FAILURE_PATH_SHARE = 0.25
+SORT_FAILURE_SHARE = 0.04
 
 
 class C09(Property):
     id = "C09"
     title = "Sequence elements behave as Python lists of member elements"
-    proof_module = "Proofs.C09Rejected"
+    proof_module = "Proofs.C09SortFailure"
     theorems = [
         "Flatland.C09.Proofs.step_refines",
         "Flatland.C09.Proofs.run_refines",
@@ -654,6 +683,17 @@ class C09(Property):
         "Flatland.C09.Proofs.positional_step",
         "Flatland.C09.Proofs.rejected_call_keeps_members",
         "Flatland.C08.Proofs.rejected_seq_unchanged",
+        # round m1: the model's keyed sort never raises (it sorts or declines); the failure path of the code — SOME
+        # rearrangement, then renumbering — for every permutation
+        "Flatland.C08.Proofs.keyed_sort_only_refuses",
+        "Flatland.C08.Proofs.keyed_sort_sorts",
+        "Flatland.C09.Proofs.sort_failure_any_permutation_dps",
+        "Flatland.C09.Proofs.sort_failure_keeps_members",
+        "Flatland.C09.Proofs.sort_failure_positional",
+        "Flatland.C09.Proofs.sort_failure_flatten_positional",
+        "Flatland.C09.Proofs.sort_success_is_instance",
+        "Flatland.C09.Proofs.sortBy_perm",
+        "Flatland.C09.Proofs.sort_failure_old_stale",
         "Flatland.Tree.setNode_indep",
         "Flatland.Tree.fromDefaults_indep",
         "Flatland.Tree.wrap_plain_ok",
@@ -687,7 +727,7 @@ class C09(Property):
                   "MultiValue) needs a non-MultiValue member schema whose re-fed values are accepted and NO MultiValue "
                   "nested inside a member (ImulDeep/noMulti: a MultiValue shows as (value,u) by its first member only, so "
                   "the reference list does not determine its copies) — automatic for Integer/String (imul_guard_scalar, "
-                  "imulDeep_scalar); with a MultiValue inside, *= is checked by correspondence and the value oracle only. positional_step — every call, every member schema. rejected_call_keeps_members (round h8) — a call on a rejection route (seqAtomic: all but extend/+=/*=/set/set_default, in-place `lst[i] = plain` with a valid index, key-less sort) that raises leaves members, slot names and parents exactly as they were, as a Python list is unchanged after IndexError/TypeError/ValueError; on the code: oracle clause rejected-changes-nothing (incl. non-integer indexes, failing sort keys, live members of a second sequence as arguments; KF-C09-d = KF-C08-b on the unchanged library). REFUTED reading: value-only "
+                  "imulDeep_scalar); with a MultiValue inside, *= is checked by correspondence and the value oracle only. positional_step — every call, every member schema. rejected_call_keeps_members (round h8) — a call on a rejection route (seqAtomic: all but extend/+=/*=/set/set_default, in-place `lst[i] = plain` with a valid index, and EVERY sort) that raises leaves members, slot names and parents exactly as they were, as a Python list is unchanged after IndexError/TypeError/ValueError; on the code: oracle clause rejected-changes-nothing (incl. non-integer indexes, sort key FUNCTIONS that raise, live members of a second sequence as arguments; KF-C09-d = KF-C08-b on the unchanged library). SORT THAT FAILS IN A COMPARISON (round m1): a Python list whose sort(key=...) raises inside a comparison (or finds itself modified) is NOT unchanged: it is left in some rearrangement of its items. The model's keyed sort cannot take that path (keyed_sort_only_refuses: it sorts — sort_success_is_instance — or answers `.unsupported`, the model declining, which is no claim about the code), so run_refines / positional_step / rejected_call_keeps_members say nothing about it. What is proved instead, about the repaired code's effect `rearranged, then _renumber()` for EVERY permutation of the slots: sort_failure_positional (slots named by current position), sort_failure_keeps_members (the same member nodes), sort_failure_any_permutation_dps (the deep positional invariant), sort_failure_old_stale (without the renumbering: refuted on a 3-member List). On the code: the reference list receives the same call with the same key on the adapted values; both must raise the same exception or both return (then in the same order); after a failure they are compared as MULTISETS (clause failed-sort-rearranges), the reference follows the sequence's order and every later call and positional clause addresses by position (positional-slot-name / -find / -flat-name, sort-slots-named-by-position: the clauses the defect repaired by 9873cdc violated). REFUTED reading: value-only "
                   "(C09_Full, KF-C09-a). ORACLE ONLY: set_flat/from_flat (values predicted for the simple key shapes only, "
                   "typing and positional naming always), set(<iterable containing Elements>) (KF-C09-c), *= with a "
                   "non-integer count (TypeError), the flags returned by set(list), model paths answering `unsupported` (= "
@@ -703,8 +743,11 @@ class C09(Property):
         "no string contains a quote or backslash (generator alphabet)",
     ]
     assumptions = [
-        "sort keys range over the family {e.u, len(e.u), len(e), e[<first field>].u} with and without reverse (the last "
-        "two only work on MEMBERS, not on ListSlots: fix 5c843db); reversed(l) is observed as l[::-1]; sort() without key "
+        "sort keys of the COMPARED histories range over the family {e.u, len(e.u), len(e), e[<first field>].u} with and without reverse (the last "
+        "two only work on MEMBERS, not on ListSlots: fix 5c843db; on other members the key FUNCTION raises and nothing moves). Keys under which "
+        "a COMPARISON fails — e.value over members mixing ints and None (unadapted text), a key object whose `<` raises after k comparisons or "
+        "appends to the list being sorted — are generated in 4 % of the histories, oracle only; that CPython then leaves the list in SOME "
+        "rearrangement of the same items is taken as given (list.sort documentation), WHICH one is not predicted; reversed(l) is observed as l[::-1]; sort() without key "
         "raises TypeError "
         "as a list of elements does (recorded non-defect): its reference operation is ROp.sortNoKey (sort on items "
         "without ordering), not the sort of a list of ints",
@@ -735,7 +778,7 @@ class C09(Property):
             "are plain values (valid, unadaptable, None), fresh Elements, or Elements detached earlier (pool); "
             "Cases the Lean model does not cover (set_flat/from_flat, model paths answering unsupported) are marked oracle-only before the run and are not counted as validated traces (tag model=oracle-only). "
             "Element arguments are read (root/path/parents/fq_name) before they are handed over in half of the cases; 'observe' steps only read. "
-            "25 % of the histories (tag fp:case, oracle only) exercise failure / recovery paths: a second sequence of the same class kept alive, calls aimed at it, live members as arguments, item assignment and insert with out-of-range and NON-INTEGER indexes ('1', None, 1.5), extended-slice size mismatches, items the member schema rejects, a sort key that raises on its second call, followed by calls that succeed. "
+            "25 % of the histories (tag fp:case, oracle only) exercise failure / recovery paths: a second sequence of the same class kept alive, calls aimed at it, live members as arguments, item assignment and insert with out-of-range and NON-INTEGER indexes ('1', None, 1.5), extended-slice size mismatches, items the member schema rejects, a sort key FUNCTION that raises on its second call, followed by calls that succeed. 4 % of the histories (tag sortfail:case, oracle only; g1common.gen_sort_failure_case) are built around sorts whose COMPARISON raises: Lists / Arrays / MultiValues of 2-8 Integer members mixing ints and unadapted text, Lists of Lists, Lists of Dicts with a nested List; keys value / cmp-raise / cmp-mutate with and without reverse, aimed at the root or at a nested List; each followed by an observation, an append (no renumbering), a renumbering call and an observation. "
             "16 % of the histories use flat routes (oracle only): half of them with NATIVE flat values (0, False, True, None, negatives; '' and '0' as text for contrast) in from_flat / set_flat pairs, 30 % on non-pruning sequences, each with one or two flatten round trips `seq.set_flat(seq.flatten(value=lambda e: e.value))` (or the text form) placed after list calls that put 0 / False / None / '' / '0' into the list (tags flat:*). "
             "non-trivial = at least 3 calls changed the sequence or raised")
     quick_n = 40000
@@ -812,6 +855,17 @@ class C09(Property):
         out.append({"schema": _seq("array", _int(2), name="a"), "nomodel": True,
                     "init": {"route": "set_flat", "value": None, "pairs": [["a", 0], ["a", ""], ["a", None], ["a", False], ["a", "0"]]},
                     "ops": [_op({"op": "append", "a": {"v": 0}}), _op({"op": "set_flat_rt"})]})
+        # round m1 (defect repaired by 9873cdc): `[3, 1, 2, None, 0].sort(key=lambda e: e.value)` raises TypeError in a
+        # COMPARISON; CPython leaves [1, 2, 3, None, 0]; the old List.sort skipped _renumber() (slot names 1,2,0,3,4).
+        # The reference list receives the same call: multisets agree, then addressing is by CURRENT position
+        out.append({"schema": Li, "nomodel": True, "init": {"route": "ctor_value", "value": {"l": [3, 1, 2, None, 0]}},
+                    "ops": [_op({"op": "sort", "key": "value", "rev": False}), _op({"op": "getitem", "i": 0}),
+                            _op({"op": "append", "a": {"v": 4}}), _op({"op": "sort", "key": "value", "rev": True}),
+                            _op({"op": "insert", "i": 0, "a": {"v": 9}}), _op({"op": "getitem", "i": 2})]})
+        out.append({"schema": Li, "nomodel": True, "init": {"route": "ctor_value", "value": {"l": [5, 4, 3, 2, 1, 0]}},
+                    "ops": [_op({"op": "sort", "key": "cmp-raise", "after": 3, "rev": False}), _op({"op": "index", "a": {"v": 5}}),
+                            _op({"op": "sort", "key": "cmp-mutate", "after": 2, "v": 7, "rev": True}),
+                            _op({"op": "append", "a": {"v": 6}}), _op({"op": "pop", "i": 0})]})
         # past disagreements / edge shapes
         out.append({"schema": _seq("list", I), "init": {"route": "ctor_value", "value": {"l": [1, 2, 3, 4, 5]}},
                     "ops": [_op({"op": "setslice", "sl": [None, None, 2], "as": [{"v": 7}]}),
@@ -829,6 +883,10 @@ class C09(Property):
 
     def _generate(self, rng, n, tier):
         for _ in range(n):
+            if rng.random() < SORT_FAILURE_SHARE:
+                # a keyed sort whose COMPARISON raises (round m1, oracle only): root sequence, nested Lists
+                yield G.gen_sort_failure_case(rng, root_seq=True)
+                continue
             cid = G.Counter()
             kind = rng.choice(["list", "list", "array", "multi"])
             root_cid = cid()
@@ -976,6 +1034,16 @@ class C09(Property):
                     t.append("fp:aliased-elements-present")
         if G.has_failure_paths(case):
             t.append("fp:case")
+        for o, st in zip(case["ops"], obs["steps"][1:]):
+            sp = o["s"]
+            if sp.get("op") == "sort" and sp.get("key") in G.SORT_CMP_FAILS and not (isinstance(st["out"], dict) and "skip" in st["out"]):
+                exc = st["out"].get("exc") if isinstance(st["out"], dict) else None
+                t.append("sortfail:%s:%s" % (sp["key"], "raised-in-comparison:" + exc if exc else "sorted"))
+                t.append("sortfail:target=" + ("root" if o["t"] == 0 else "nested"))
+                if exc:
+                    t.append("sortfail:raised" + (":reverse" if sp.get("rev") else ""))
+        if G.has_sort_failure(case):
+            t.append("sortfail:case")
         # flat routes: text / native values, falsy natives, non-pruning, round trips
         def _pairs_tags(pairs, what):
             if any(not isinstance(v, str) for _, v in pairs):
